@@ -9,6 +9,7 @@ CONSTANTS
   ROs = {FALSE}
   ExtNames = {"a", "b", "c"}
   MaxFiles = {1, 2, 1000000, 1000001}
+  FaultSet <- FaultsQuick
   WhatIf = "none"
   NOps = 9
 SPECIFICATION SSpec
